@@ -26,7 +26,7 @@ CLAIMS = {
    design="3.C03", technique=T + "; data-structure invariant + call-site preconditions on callback stubs"),
  "C05": dict(
    text="Deductive proof on handleBdat/discardChunk: framing post on every return path (declared size well-formed => stream position advanced by exactly the declared size, refusals included, or the connection failed; nothing read for a malformed command), clean close of the pipe only after a complete LAST chunk (call-site obligation), one final reply per command, line limit lifted during the copy and restored on every exit. Transparency of the payload is the io.Copy/LimitReader stub (no transformation).",
-   note=COMMON_NOTE + "Assumed: io.Copy / io.LimitReader / io.Pipe stubs; strconv.ParseUint and strings.Fields as deterministic functions. Not decided: the line limiter counting payload octets that bufio read ahead together with the BDAT line.",
+   note=COMMON_NOTE + "Assumed: io.Copy / io.LimitReader / io.Pipe stubs; strconv.ParseUint and strings.Fields as deterministic functions. BOUNDED stand-in (labelled bounded, never counted as proved; bufio and textproto.ReadLine sit between the limiter and the handler and are library code behind a stub): the real server stack (newConn + handleConn) on a scripted connection whose every Read returns one scripted segment - 16 payloads (0..5000 octets, without LF around the line limit, 8-bit, LF-rich, end-marker and command look-alikes) in one or two chunks, segmented at the command boundaries, not at all and at every position around the BDAT line (thorough: every position of the short payloads), followed by NOOP and QUIT: the backend gets the payload, the following commands stay in step. It found and now guards the read-ahead defect repaired by 4981975.",
    design="3.C05", technique=T),
  "C06": dict(
    text="Deductive proof: reader budget invariant delivered + n == limit (so never more than N octets over any sequence of reads), newDataReader takes the budget from MaxMessageBytes, ErrDataTooLarge only with an exhausted budget AND only when more of the message follows (a message of exactly N octets is accepted: limit-transparency clause, proved after fix f7f3907), SIZE > N refused before the Mail callback (stub precondition), BDAT accumulation bounded by N (connInv conjunct, over-limit chunk discarded and transaction reset).",
@@ -89,8 +89,8 @@ CLAIMS = {
    note=COMMON_NOTE + "Assumed: PrintfLine writes exactly the formatted line. BOUNDED stand-in for the client half (labelled bounded, never counted as proved; textproto and string splitting do the parsing): the reply the real writeError puts on the wire comes back through textproto.ReadResponse + toSMTPErr as an equal SMTPError for 7 codes x 5 enhanced codes x all messages of length <= 5 over {a,5,.,-,space,%,LF} with non-empty untrimmed lines.",
    design="3.C17", technique=T),
  "C19": dict(
-   text="Deductive proof: lineLimitReader.Read tracks the run length written from the property text (loop invariant), refusal only if a run exceeds the limit, delivered data only with all runs within the limit, sticky refusal; readLine requires the limit to be active at every call site (command loop invariant, AUTH continuation); protocolError counts and gives up after more than three errors; zero-annotation safety sweep (bounds, nil, type assertion, nil map, explicit panic, overflow) over the functions under contract reachable from handleConn.",
-   note=COMMON_NOTE + "Assumed: 0 <= MaxLineLength < MaxInt; the transport does not return data together with an error. Parser functions are under the sweep only where they have contracts in this revision.",
+   text="Deductive proof: lineLimitReader.Read tracks the run length written from the property text (loop invariant), refusal only after a run has exceeded the limit, nothing of the too long line handed out, delivered data only with all runs within the limit, sticky refusal, what was read beyond is kept for a reader that lifts the limit; readLine requires the limit to be active at every call site (command loop invariant, AUTH continuation); protocolError counts and gives up after more than three errors; zero-annotation safety sweep (bounds, nil, type assertion, nil map, explicit panic, overflow) over the functions under contract reachable from handleConn.",
+   note=COMMON_NOTE + "Assumed: 0 <= MaxLineLength < MaxInt; the transport does not return data together with an error. Parser functions are under the sweep only where they have contracts in this revision. BOUNDED stand-in (labelled bounded, never counted as proved; the stack above the limiter is library code): MAIL lines of 1990..2010, 3000 and 5000 octets on the real server stack under eight segmentations: within the limit served, more than one octet over it never handed to the backend, answered 500, connection closed.",
    design="3.C19", technique=T),
 }
 
